@@ -159,3 +159,15 @@ impl PairInfoRaw {
             && p[1].amount.0 as nat == balance_of(querier.world(), p[1].info, contract_addr.0@) }),
 //%end
 }
+// normal (human readable) form of a registry record
+pub open spec fn normal_of(raw: PairInfoRaw, n: PairInfo) -> bool {
+    raw_of(n.asset_infos[0], raw.asset_infos[0]) && raw_of(n.asset_infos[1], raw.asset_infos[1])
+    && n.contract_addr@ == human_of(raw.contract_addr.0@) && n.liquidity_token@ == human_of(raw.liquidity_token.0@)
+    && n.asset_decimals == raw.asset_decimals && n.requirements == raw.requirements && n.commission_rate == raw.commission_rate
+}
+impl PairInfoRaw {
+//%fn packages/haloswap/src/asset.rs | impl PairInfoRaw | to_normal
+//%%sig
+    ensures /*[C16 record.to_normal]*/ r is Ok ==> normal_of(*self, r->Ok_0),
+//%end
+}
